@@ -59,7 +59,7 @@ type Stmt struct {
 	OrderBy   []OrderTerm
 	Limit     int // 0 = none
 	ForUpdate bool
-	Index     string   // "FORCE" / "USE" / ""
+	Index     string // "FORCE" / "USE" / ""
 	IndexCols []string
 	NumArgs   int
 	Inner     *Stmt // EXPLAIN
